@@ -22,7 +22,7 @@ NAME = "sr_world"
 TITLE = "Stochastic reconfiguration is an unbiased, weight-conserving comb"
 
 TIERS = {
-    "quick": dict(runs=8000, budget_s=150, recheck=4, shrink_s=60.0),
+    "quick": dict(runs=8000, budget_s=240, recheck=4, shrink_s=60.0),
     "thorough": dict(runs=400000, budget_s=1200, recheck=16, shrink_s=180.0),
 }
 
